@@ -63,7 +63,7 @@
 (***************************************************************************)
 EXTENDS Integers, Sequences, FiniteSets, TLC, Json, Randomization
 
-CONSTANTS Family,     \* "search" | "merge" | "fetch" | "store" | "rand"
+CONSTANTS Family,     \* "search" | "merge" | "fetch" | "store" | "rand" | "shard" (Part 4) | "big" (Part 5)
           Topos,      \* topology codes hs*1000 + hr*100 + cs*10 + cr (hot shards, hot replicas, cold shards, cold replicas)
           HotReads,   \* subset of BOOLEAN: hot tier configured as HotReadStores (HotStores = a decoy that must not be asked)
           SBs,        \* search behaviours of a host
